@@ -21,6 +21,8 @@ import PS.Theorems.C04
 import PS.Theorems.C02
 import PS.Theorems.C07
 import PS.Spec.Schedule
+import PS.Proofs.Congr
+import PS.Proofs.EvalB
 namespace PS
 
 /-- task names identify tasks -/
@@ -42,11 +44,14 @@ structure TaskValid (σ : Sched) (t : Task) : Prop where
   deadline : ∀ d, t.due = some d → t.deadline = true → σ.end_ t.name ≤ d
 
 theorem envOf_tStart (st : State) (σ : Sched) (t : Task) (h : st.findTask t.name = some t) :
-    (envOf st σ).i (.tStart t.name) = tStartOf σ t := by simp [envOf, h]
+    (envOf st σ).i (.tStart t.name) = tStartOf σ t := by
+  rw [envOf_prim st σ _ rfl]; simp [envPrim, h]
 theorem envOf_tEnd (st : State) (σ : Sched) (t : Task) (h : st.findTask t.name = some t) :
-    (envOf st σ).i (.tEnd t.name) = tEndOf σ t := by simp [envOf, h]
+    (envOf st σ).i (.tEnd t.name) = tEndOf σ t := by
+  rw [envOf_prim st σ _ rfl]; simp [envPrim, h]
 theorem envOf_tDur (st : State) (σ : Sched) (t : Task) (h : st.findTask t.name = some t) :
-    (envOf st σ).i (.tDur t.name) = tDurOf σ t := by simp [envOf, h]
+    (envOf st σ).i (.tDur t.name) = tDurOf σ t := by
+  rw [envOf_prim st σ _ rfl]; simp [envPrim, h]
 
 theorem baseList_complete (st : State) (σ : Sched) (t : Task) (hf : st.findTask t.name = some t)
     (hs : σ.isSched t = true) (hv : TaskValid σ t) : Sat (envOf st σ) t.baseList := by
@@ -189,7 +194,7 @@ theorem envOf_busy (st : State) (σ : Sched) (t : Task) (r : Req) (m : Bool)
     (hf : st.findTask t.name = some t) (hr : st.reqFor r.worker t.name = some r) :
     (envOf st σ).i (.busyS r.worker t.name m) = (busyOfReq σ t r).1 ∧
     (envOf st σ).i (.busyE r.worker t.name m) = (busyOfReq σ t r).2 := by
-  simp [envOf, hf, hr]
+  rw [envOf_prim st σ _ rfl, envOf_prim st σ _ rfl]; simp [envPrim, hf, hr]
 
 /-- a dynamically assigned worker joins and leaves inside the span of its (scheduled) task -/
 def DynValid (σ : Sched) (t : Task) (r : Req) : Prop :=
@@ -343,6 +348,9 @@ def CoreMeaning (st : State) (σ : Sched) : CBody → Prop
        | .max => cs.countP σ.applied ≤ n)
   | .unavailable busy ivs => ∀ b ∈ busy, ∀ iv ∈ ivs, iv.2 ≤ b.sV (envOf st σ) ∨ b.eV (envOf st σ) ≤ iv.1
   | .sameWorkers s1 s2 => ∀ w ∈ s1.workers, w ∈ s2.workers → σ.sel s1.id w = σ.sel s2.id w
+  -- constraints on indicators: the value the witness interpretation gives the indicator (its definition) meets them
+  | .indicatorTarget v value => (envOf st σ).i v = value
+  | .indicatorBounds v lo hi => (∀ l, lo = some l → l ≤ (envOf st σ).i v) ∧ (∀ h, hi = some h → (envOf st σ).i v ≤ h)
   -- the interruption classes (no auxiliary variables): the requirement on every busy interval the constraint was
   -- declared on, read on the busy intervals the schedule induces; for the periodic classes the window of the period
   -- the interval starts in (what the documented meaning — all repetitions — implies a fortiori)
@@ -366,7 +374,8 @@ def CBody.inCore : CBody → Bool
   | .startAt .. | .startAfter .. | .endAt .. | .endBefore .. | .precedence .. | .startSynced .. | .endSynced ..
   | .dontOverlap .. | .forceSchedule .. | .conditionSchedule .. | .dependency .. | .forceScheduleN ..
   | .fromExpr .. | .forceApplyN .. | .unavailable .. | .sameWorkers ..
-  | .interrupted .. | .periodicallyUnavailable .. | .periodicallyInterrupted .. => true
+  | .interrupted .. | .periodicallyUnavailable .. | .periodicallyInterrupted ..
+  | .indicatorTarget .. | .indicatorBounds .. => true
   | b => b.isConn
 
 theorem core_raw_complete (st : State) (σ : Sched) (c : Nat) (b : CBody)
@@ -495,6 +504,24 @@ theorem core_raw_complete (st : State) (σ : Sched) (c : Nat) (b : CBody)
     have hb1 : (envOf st σ).b (.sel s1.id w) = σ.sel s1.id w := rfl
     have hb2 : (envOf st σ).b (.sel s2.id w) = σ.sel s2.id w := rfl
     simp [Fml.eval, hb1, hb2, this]
+  case indicatorTarget v value =>
+    simp only [CoreMeaning] at hm
+    simpa [CBody.raw, Sat, Fml.eval, Term.eval, numT] using hm
+  case indicatorBounds v lo hi =>
+    simp only [CoreMeaning] at hm
+    intro a ha
+    simp only [CBody.raw, List.mem_append] at ha
+    rcases ha with ha | ha
+    · cases lo with
+      | none => simp at ha
+      | some l =>
+          simp only [List.mem_singleton] at ha; subst ha
+          simpa [Fml.eval, Term.eval, numT] using hm.1 l rfl
+    · cases hi with
+      | none => simp at ha
+      | some h =>
+          simp only [List.mem_singleton] at ha; subst ha
+          simpa [Fml.eval, Term.eval, numT] using hm.2 h rfl
   case interrupted ws ivs =>
     simp only [CoreMeaning] at hm
     obtain ⟨hwf, hall⟩ := hm
@@ -567,13 +594,62 @@ theorem noOverlapPairs_complete (ρ : Env) (w : String) (l : List (String × Boo
       simp only [Fml.eval, Fml.evalAny, Term.eval, bS, bE, or_false]
       exact this
 
+/-! ### indicators defined by one equation over the primary variables -/
+
+/-- the indicators of the problem are of the single-equation kind (`indicator = T`, `IBody.defTerm`), `T`
+    quantifier free over the primary variables, and their variables are pairwise different indicator variables -/
+structure IndsOK (st : State) : Prop where
+  isInd : ∀ ind ∈ st.indicators, ind.var.isInd = true
+  distinct : st.indicators.Pairwise (fun a b => a.var ≠ b.var)
+  simple : ∀ ind ∈ st.indicators, ∃ T, ind.body.defTerm = some T ∧ T.qf = true ∧
+    T.varsIn (fun v => !v.isInd) = true
+
+theorem envOf_agree (st : State) (σ : Sched) : Env.AgreeOn (fun v => !v.isInd) (envPrim st σ) (envOf st σ) where
+  i := by
+    intro v hv
+    have : v.isInd = false := by simpa using hv
+    exact (envOf_prim st σ v this).symm
+  b := rfl
+  f := rfl
+  a := rfl
+  p := rfl
+
+theorem find?_of_pairwise_var (l : List Indicator) (h : l.Pairwise (fun a b => a.var ≠ b.var)) (ind : Indicator)
+    (hm : ind ∈ l) : l.find? (fun x => x.var == ind.var) = some ind := by
+  induction l with
+  | nil => simp at hm
+  | cons x xs ih =>
+      rw [List.pairwise_cons] at h
+      rcases List.mem_cons.1 hm with rfl | hm'
+      · simp
+      · have hne : x.var ≠ ind.var := h.1 ind hm'
+        have : (x.var == ind.var) = false := by simpa using hne
+        rw [List.find?_cons, this]
+        exact ih h.2 hm'
+
+/-- **C05 (indicators).** Under the witness interpretation every single-equation indicator takes the value of
+    its defining term, so its assertion holds. -/
+theorem indicator_complete (st : State) (σ : Sched) (hok : IndsOK st) (ind : Indicator) (hi : ind ∈ st.indicators) :
+    Sat (envOf st σ) ind.asserts := by
+  obtain ⟨T, hT, hqf, hvars⟩ := hok.simple ind hi
+  unfold Indicator.asserts
+  rw [IBody.defTerm_fmls ind.body ind.id (.var ind.var) T hT]
+  intro a ha
+  simp only [List.mem_singleton] at ha; subst ha
+  simp only [Fml.eval, Term.eval]
+  have hval : (envOf st σ).i ind.var = T.evalB (envPrim st σ) := by
+    simp only [envOf, hok.isInd ind hi, if_true, find?_of_pairwise_var _ hok.distinct ind hi, hT]
+  rw [hval, Term.evalB_eq _ T hqf]
+  exact Term.eval_congr _ _ _ (envOf_agree st σ) T hvars
+
 /-- the problem uses only elements of the core fragment (each exclusion is a recorded finding) -/
 structure InCore (st : State) : Prop where
   names : NamesOK st
   reqs : ReqsOK st
   constrs : ∀ c ∈ st.constrs, c.operand = false →
-    c.body.inCore = true ∧ c.body.direct = false ∧ ∀ t ∈ c.body.coreTasks, st.findTask t.name = some t
-  no_indicators : st.indicators = []
+    c.body.inCore = true ∧ (c.optional = true → c.body.direct = false) ∧
+    ∀ t ∈ c.body.coreTasks, st.findTask t.name = some t
+  indicators : IndsOK st
   no_buffers : st.buffers = []
   single_objective : st.objectives.length ≤ 1
 
@@ -612,7 +688,7 @@ theorem C05_complete_core (cfg : Config) (st : State) (σ : Sched) (hcore : InCo
   · obtain ⟨c, hc, hop, h1⟩ := h
     obtain ⟨hin, hdir, htk⟩ := hcore.constrs c hc hop
     by_cases hopt : c.optional = true
-    · have := (C10_optional c hopt hdir (envOf st σ)).2 (by
+    · have := (C10_optional c hopt (hdir hopt) (envOf st σ)).2 (by
         intro happ
         have happ' : σ.applied c.id = true := happ
         exact core_raw_complete st σ c.id c.body htk (hv.constrs c hc hop (fun _ => happ')))
@@ -620,9 +696,8 @@ theorem C05_complete_core (cfg : Config) (st : State) (σ : Sched) (hcore : InCo
     · have hopt' : c.optional = false := by cases hh : c.optional <;> simp_all
       rw [C10_mandatory c hopt'] at h1
       exact core_raw_complete st σ c.id c.body htk (hv.constrs c hc hop (fun h => absurd h hopt)) a h1
-  · obtain ⟨i, hi, _⟩ := h
-    rw [hcore.no_indicators] at hi
-    simp at hi
+  · obtain ⟨i, hi, h1⟩ := h
+    exact indicator_complete st σ hcore.indicators i hi a h1
   · obtain ⟨t, ht, h1⟩ := h
     unfold workAmount at h1
     by_cases hw : t.work > 0
@@ -731,5 +806,39 @@ example : C05_exState2.constrs.length = 3 ∧ (C05_exState2.constrs.all (fun c =
 -- … and one period later the variable task would have to be longer: [12, 15] is rejected
 example : satB (envOf C05_exState2 { C05_exSched2 with end_ := fun n => if n == "F" then 11 else 15, dur := fun n => if n == "F" then 3 else 3 })
     (initFmls {} C05_exState2) = false := by decide +kernel
+
+/-- an optimisation problem: a flow-time objective (which creates its indicator), a utilisation and a tardiness
+    indicator; the witness interpretation gives the indicators the values of their definitions -/
+def C05_exState3 : State :=
+  run [.problem "p" (some 12),
+       .task "A" (.fixed 3) false 0 none (some 5) false 2,
+       .task "B" (.var 1 (some 4) none) true 0 none none true 1,
+       .worker "W" 1 (.const 0),
+       .require "A" (.worker "W") false 0 0,
+       .require "B" (.worker "W") false 0 0,
+       .constr none false (.precedence "A" "B" 0 .lax),
+       .indicator (.utilization "W"),
+       .indicator (.tardiness (some ["A"])),
+       .objective (.flowtime none)]
+
+def C05_exSched3 : Sched :=
+  { sched := fun n => n == "B"
+    start := fun n => if n == "A" then 4 else 8
+    end_ := fun n => if n == "A" then 7 else 10
+    dur := fun n => if n == "A" then 3 else 2
+    sel := fun _ _ => false
+    applied := fun _ => false
+    dynS := fun _ _ => 0
+    dynE := fun _ _ => 0
+    horizon := 12 }
+
+example : satB (envOf C05_exState3 C05_exSched3) (initFmls {} C05_exState3) = true := by decide +kernel
+-- utilisation ⌊100·5/12⌋ = 41, weighted tardiness 2·(7 − 5) = 4, flow time 7 + 10 = 17
+example : C05_exState3.indicators.map (fun ind => (envOf C05_exState3 C05_exSched3).i ind.var) = [41, 4, 17] := by
+  decide +kernel
+-- the hypotheses `IndsOK` asks of the indicators
+example : (C05_exState3.indicators.all (fun ind => ind.var.isInd &&
+    (match ind.body.defTerm with | some T => T.qf && T.varsIn (fun v => !v.isInd) | none => false))) = true ∧
+    C05_exState3.indicators.length = 3 ∧ C05_exState3.objectives.length = 1 := by decide +kernel
 
 end PS
